@@ -271,6 +271,7 @@ START:
 	}
 
 	// Probe the specific node
+	m.vt("probe.pick", &node)
 	m.probeNode(&node)
 }
 
